@@ -203,7 +203,8 @@ def directory(payload):
     elif payload.get("d"):
         root = Path(payload["d"])
     else:
-        root = Path(SQLLineageConfig.DIRECTORY)
+        # list the directory the POST routes are allowed to read (the same root the guard checks against)
+        root = Path(app.root_path)
     data = {
         "id": str(root),
         "name": root.name,
